@@ -802,9 +802,42 @@ class C10(Property):
         count = 16000 if deep else 2400
         generated = (self.gen_layout(rng, tier) for _ in range(count))
         yield from self._precomputed(generated)
+        yield from self.prepeptide_cases(rng, deep)
         if deep:
             yield from self._precomputed(self.small_scope())
         self.extra_coverage = {"records_generated": count, "worker_processes": WORKERS}
+
+    def prepeptide_cases(self, rng: random.Random, deep: bool) -> Iterator[Dict[str, Any]]:
+        """every leader/tail split of small genes of every shape: one exon, two or three exons (apart and
+        adjoining), origin-spanning (cut before, at and after the origin), both strands"""
+        n = 60
+        shapes = [[[9, 27]], [[9, 18], [24, 33]], [[9, 18], [18, 27]], [[9, 15], [20, 26], [30, 36]],
+                  [[51, 60], [0, 9]], [[48, 60], [0, 6]], [[57, 60], [0, 15]], [[45, 54], [57, 60], [0, 6]]]
+        for shape in shapes:
+            for strand in (1, -1):
+                parts = [[lo, hi, strand] for lo, hi in shape]
+                if strand == -1:
+                    parts.reverse()
+                loc = compound(parts) if len(parts) > 1 else simple(*parts[0])
+                total = sum(hi - lo for lo, hi in shape) // 3
+                for ld in range(0, total):
+                    for tl in range(0, total - ld):
+                        yield {"f": "prepeptide", "loc": loc, "ld": ld, "tl": tl, "len": n}
+        for _ in range(3000 if deep else 300):
+            strand = rng.choice([1, -1])
+            k = rng.choice([1, 2, 2, 3])
+            cuts = sorted(rng.sample(range(0, 200), 2 * k))
+            parts = [[cuts[2 * i], cuts[2 * i + 1] + 1, strand] for i in range(k)]
+            if rng.random() < 0.3 and k >= 2:
+                parts = parts[1:] + parts[:1]          # reads as crossing the origin
+            if strand == -1:
+                parts.reverse()
+            total = sum(p[1] - p[0] for p in parts) // 3
+            if total < 2:
+                continue
+            ld = rng.randrange(0, total)
+            tl = rng.randrange(0, total - ld)
+            yield {"f": "prepeptide", "loc": compound(parts) if k > 1 else simple(*parts[0]), "ld": ld, "tl": tl, "len": 201}
 
     def _precomputed(self, cases: Iterator[Dict[str, Any]]) -> Iterator[Dict[str, Any]]:
         """runs the real round trips of a chunk of cases in worker processes (the implementation side is
@@ -854,6 +887,8 @@ class C10(Property):
         return self.observe(case)
 
     def observe(self, case: Dict[str, Any]) -> Dict[str, Any]:
+        if case["f"] == "prepeptide":
+            return self.observe_prepeptide(case)
         try:
             rec = build_record(case)
         except Exception as exc:  # pylint: disable=broad-except
@@ -881,7 +916,33 @@ class C10(Property):
             import traceback
             return {"err": err_kind(exc), "msg": str(exc)[:300], "trace": traceback.format_exc()[-500:]}
 
+    @staticmethod
+    def observe_prepeptide(case: Dict[str, Any]) -> Dict[str, Any]:
+        """location part of the real Prepeptide.to_biopython / from_biopython, outside any record"""
+        from antismash.common.secmet.features import Prepeptide
+        location = common.make_location(case["loc"])
+        total = len(location) // 3
+        try:
+            pre = Prepeptide(location, "lanthipeptide", "C" * (total - case["ld"] - case["tl"]), "locus", "lanthipeptides",
+                             "Class-I", 1.5, 800.1, 801.2, [], leader="M" * case["ld"], tail="G" * case["tl"])
+            bios = pre.to_biopython()
+            core = next(b for b in bios if b.qualifiers["prepeptide"] == ["core"])
+            written = {"core": common.location_json(core.location),
+                       "leader": core.qualifiers.get("leader_location", [None])[0],
+                       "tail": core.qualifiers.get("tail_location", [None])[0],
+                       "pieces": [[b.qualifiers["prepeptide"][0], str(b.location)] for b in bios]}
+        except Exception as exc:  # pylint: disable=broad-except
+            return {"err": err_kind(exc), "msg": str(exc)[:200]}
+        try:
+            back = Prepeptide.from_biopython(core)
+            return {"written": written, "re": common.location_json(back.location),
+                    "again": [[b.qualifiers["prepeptide"][0], str(b.location)] for b in back.to_biopython()]}
+        except Exception as exc:  # pylint: disable=broad-except
+            return {"written": written, "re_err": err_kind(exc), "msg": str(exc)[:200]}
+
     def driver_line(self, case: Dict[str, Any], obs: Dict[str, Any]) -> Optional[Dict[str, Any]]:
+        if case["f"] == "prepeptide":
+            return dict(case, re=obs.get("re"))
         if "state" not in obs:
             return None
         line = {"f": "record", "rec": for_model(obs["state"]), "re_gb": for_model(obs["re_gb"]),
@@ -896,7 +957,51 @@ class C10(Property):
             line["re_json"] = without(line["re_json"])
         return line
 
+    def judge_prepeptide(self, case: Dict[str, Any], obs: Dict[str, Any], drv: Dict[str, Any]) -> Judgement:
+        scope = bool(drv["scope"])
+        tags = ["prepeptide-location", "compound" if case["loc"]["c"] else "simple",
+                "reverse" if case["loc"]["parts"][0][2] == -1 else "forward"]
+        if "err" in obs:
+            # the cut itself is C09's subject; here only: the model refuses what the code refuses
+            corr = "err" in drv["written"]
+            return Judgement(corr, True, in_scope=False, tags=tuple(tags + ["refused:" + obs["err"]]),
+                             detail="" if corr else f"model {drv['written']} vs implementation {obs}")
+        problems = []
+        w = drv["written"].get("ok")
+        real = {k: obs["written"][k] for k in ("core", "leader", "tail")}
+        if w != real:
+            problems.append(f"written: model {drv['written']} vs implementation {real}")
+        if "re" in obs and drv["reread"] != obs["re"]:
+            problems.append(f"re-read location: model {drv['reread']} vs implementation {obs['re']}")
+        corr = not problems
+        # spec: the re-read location is the original one (the translated part of it), and writes the same pieces
+        whole = sum(p[1] - p[0] for p in case["loc"]["parts"]) % 3 == 0
+        bad = []
+        if "re_err" in obs:
+            bad.append(f"re-reading raised {obs['re_err']}: {obs.get('msg')}")
+        else:
+            if not drv["impl_bases_ok"]:
+                bad.append("the re-read location does not have the gene's translated bases in transcription order")
+            if whole and obs["re"] != case["loc"]:
+                bad.append(f"location {case['loc']['parts']} came back as {obs['re']['parts']}")
+            if obs["again"] != obs["written"]["pieces"]:
+                bad.append(f"second write {obs['again']} differs from the first {obs['written']['pieces']}")
+        known = None
+        if bad and "re" in obs and drv["impl_bases_ok"] and obs["again"] == obs["written"]["pieces"] and \
+                (not whole or drv["impl_merged"] == drv["orig_merged"]):
+            known = KF_PREPEPTIDE     # only the cut into parts differs
+        if not corr and w == real and "re" in obs and drv["impl_merged"] == drv["model_merged"]:
+            # the model is the repaired code (fixes/D107); until that is applied the implementation's re-read
+            # location may differ from the model's in the cut into parts only — the same recorded finding
+            known = KF_PREPEPTIDE
+        detail = "; ".join(bad + problems)
+        return Judgement(corr, not bad, in_scope=scope, known=known, nontrivial=case["ld"] + case["tl"] > 0,
+                         tags=tuple(tags), detail=detail[:1200])
+
     def judge(self, case: Dict[str, Any], obs: Dict[str, Any], drv: Optional[Dict[str, Any]]) -> Judgement:
+        if case["f"] == "prepeptide":
+            assert drv is not None
+            return self.judge_prepeptide(case, obs, drv)
         if "skip" in obs:
             return Judgement(True, True, in_scope=False, tags=("skipped:" + obs["skip"],))
         if "err" in obs:
@@ -1017,6 +1122,8 @@ class C10(Property):
         return None
 
     def shrink(self, case: Dict[str, Any]) -> Iterator[Dict[str, Any]]:
+        if case["f"] != "record":
+            return
         for key in ("input", "annot", "domains", "modules", "prepeptides", "generics", "subs"):
             items = case.get(key, [])
             for i in range(len(items)):
